@@ -105,6 +105,9 @@ func runC10(c *fw.Case) (o fw.Outcome) {
 	if c.Thorough() {
 		steps = 700
 	}
+	if c.Idx%2 == 1 { // the uplink counter of the same UE is somewhere else: the downlink estimate must not depend on it
+		ue.ULCount.Set(uint16(r.Intn(1<<16)), uint8(r.Intn(256)))
+	}
 	profile := (c.Idx / 6) % 3
 	o.Tag(fmt.Sprintf("NIA%d/NEA%d", iAlg, cAlg), fmt.Sprintf("reset-profile=%d", profile))
 	hist := fw.Hash(ue.KnasEnc[:], ue.KnasInt[:], []byte{cAlg, iAlg})
